@@ -24,7 +24,7 @@ from ..astutil import call_name, calls, dotted, kwarg, last_name, parents, u
 from ..formula import extract, same, same_events, spec
 from ..model import AnalysisError
 from ..paths import enumerate_paths, guards_of
-from ..termflow import ADict, AList, TRUE, as_term, show, vkey
+from ..termflow import ADict, AList, Poly, TRUE, as_term, show, vkey
 from . import C20 as _io
 
 SLOT_CLASSES = ("tree.tree.Tree", "tree.tree_node.TreeNode", "tree_holder.TreeHolder", "particle.Particle")
@@ -1190,6 +1190,56 @@ class _Reads:
         return None
 
 
+def rule_R4(ctx):
+    """What is pickled is what the chains returned: between receiving the results and dumping them the writer may add
+    the cluster table to each chain's record and nothing else.  Any other store that reaches an object of the results
+    (a data point's grid re-typed "to save space", an entry edited, a list sorted in place) makes the restored trees
+    differ from the ones the recorded log_p_one was computed on."""
+    from ..termflow import key_atom as _ka, _is_polykey as _ipk
+
+    prog = ctx.prog
+    ctx.rule("R4", "the writer stores the chains' results as they were returned: its only write into them is the cluster table (no re-typing / rounding / editing of data points, entries or trees before the dump)", 2)
+    w = prog.fn("process_trace.create_main_run_output")
+    if "results" not in w.params:
+        raise AnalysisError("create_main_run_output no longer takes `results`")
+    ex = extract(prog, w)
+    rk = Poly.atom(("v", "P%d" % w.params.index("results"))).key()
+
+    def reaches_results(v, depth=0):
+        """Does the term denote an object inside the results (results[..], an element of results.values(), an attribute
+        or element of one)?"""
+        k = vkey(v) if not isinstance(v, tuple) else v
+        if k == rk:
+            return True
+        a = _ka(k) if _ipk(k) else (k if isinstance(k, tuple) and k and isinstance(k[0], str) else None)
+        if a is None or depth > 12:
+            return False
+        if a[0] in ("sub", "attr", "elem", "elemv", "elemk") and len(a) > 1:
+            return reaches_results(a[1], depth + 1)
+        if a[0] == "mcall" and a[1] in ("values", "items", "keys", "get") and len(a) > 2:
+            return reaches_results(a[2], depth + 1)
+        if a[0] == "call" and a[1] in ("list", "tuple", "sorted", "iter", "reversed", "enumerate") and a[2]:
+            return reaches_results(a[2][0], depth + 1)
+        return False
+
+    bad, allowed = [], 0
+    for e in ex.events:
+        if e.name == "store_sub" and e.args and reaches_results(e.args[0]):
+            if len(e.args) >= 2 and e.args[1] == "clusters":
+                allowed += 1
+                continue
+            bad.append((e, "stores into %s[%s]" % (show(e.args[0])[:60], show(e.args[1])[:30])))
+        elif e.name in ("store_attr", "store_content", "del") and e.args and reaches_results(e.args[0]):
+            bad.append((e, "%s on %s%s" % ({"store_attr": "assigns an attribute", "store_content": "overwrites the contents", "del": "deletes"}[e.name], show(e.args[0])[:80], (" ." + str(e.kwargs.get("attr"))) if e.kwargs.get("attr") else "")))
+        elif e.name.startswith(".") and e.name[1:] in ("sort", "reverse", "clear", "pop", "popitem", "remove", "append", "extend", "insert", "update", "setdefault", "fill", "astype_inplace") and e.recv is not None and reaches_results(e.recv):
+            bad.append((e, "calls %s on %s" % (e.name, show(e.recv)[:80])))
+    dumps = [e for e in ex.events if e.name in ("pickle.dump", "dump", ".dump")]
+    ok_dump = any(e.args and vkey(e.args[0]) == rk for e in dumps)
+    ctx.check(ok_dump, "R4", "create_main_run_output pickles the results mapping it was handed", w.where(dumps[0].node) if dumps else w.where(), "the object pickled is %s, not the `results` parameter" % ([show(e.args[0])[:80] for e in dumps if e.args] or "nothing"), construct=w.qualname, stmt="pickle.dump(results, ...)")
+    ctx.check(not bad, "R4", "create_main_run_output adds the cluster table and changes nothing else in the results", w.where(bad[0][0].node) if bad else w.where(), "; ".join(t for _, t in bad[:3]) + ": the objects the trace entries refer to are altered after the entries (and their log_p_one) were recorded", construct=w.qualname, stmt="writes into results")
+    ctx.analysed(w)
+
+
 def rule_R3(ctx, entry_keys, chain_dict):
     prog = ctx.prog
     ctx.rule("R3", "every entry-level and chain-level key the summary commands (and run.run) read is written by the run; optional keys are read tolerantly; writer and readers share the stream codec", 16)
@@ -1331,6 +1381,7 @@ def run(ctx):
     if entry is not None:
         chain_dict = ctx.soft(rule_R2, entry)
         ctx.soft(rule_R3, entry[1].keys(), chain_dict)
+    ctx.soft(rule_R4)
     # "self-consistent entries": the recorded alpha is the value the recorded log_p_one was computed under only if
     # assigning alpha refreshes everything derived from it (same rule object as C13.U3), and log_p_one is the
     # specified density of the recorded tree (C03.T1-T3)
@@ -1359,6 +1410,9 @@ _PT = "phyclone/process_trace/process_trace.py"
 _APPEND_BLOCK = "            if i % thin == 0:\n                append_to_trace(i, timer, trace, tree, tree_dist)\n\n            if timer.elapsed >= max_time:\n                break\n"
 _ENTRY = "    trace.append(\n        {\n            \"iter\": i,\n            \"time\": timer.elapsed,\n            \"alpha\": tree_dist.prior.alpha,\n            \"log_p_one\": tree_dist.log_p_one(tree),\n            \"tree\": tree.to_dict(),\n        }\n    )\n"
 SELFTEST = [
+    {"name": "R4-writer-thins-the-trace-before-the-dump", "kind": "break", "rule": "R4", "file": _PT, "old": "    for chain_result in results.values():\n        if cluster_file is not None:\n", "new": "    for chain_result in results.values():\n        chain_result[\"trace\"] = chain_result[\"trace\"][::2]\n        if cluster_file is not None:\n"},
+    {"name": "R4-writer-retypes-the-grids", "kind": "break", "rule": "R4", "file": _PT, "old": "    for chain_result in results.values():\n        if cluster_file is not None:\n", "new": "    for chain_result in results.values():\n        for data_point in chain_result[\"data\"]:\n            data_point.value = data_point.value.astype(np.float32)\n        if cluster_file is not None:\n"},
+    {"name": "benign-writer-reports-progress", "kind": "benign", "file": _PT, "old": "    for chain_result in results.values():\n        if cluster_file is not None:\n", "new": "    for chain_result in results.values():\n        print(\"writing chain\", chain_result[\"chain_num\"], len(chain_result[\"trace\"]))\n        if cluster_file is not None:\n"},
     {"name": "U3-setter-does-not-refresh-log-alpha", "kind": "break", "rule": ["U3", "T1"], "file": "phyclone/tree/distributions.py", "old": "        self._alpha = alpha\n        self.log_alpha = np.log(alpha)\n", "new": "        self._alpha = alpha\n"},
     # ---- D1
     {"name": "D1-key-renamed-in-to_dict-only", "kind": "break", "rule": "D1", "file": _T, "old": "            \"node_idx_rev\": self._node_indices_rev.copy(),\n", "new": "            \"node_index_rev\": self._node_indices_rev.copy(),\n"},
